@@ -90,6 +90,11 @@ def project_extra(slot, item):
         slot["pr"] = proj.date_printed(slot.get("out", ""), item.get("lang", "en"))
     elif slot.get("k") == "datetime":
         slot["pr"] = proj.datetime_printed(slot.get("out", ""), item.get("lang", "en"))
+    elif slot.get("k") == "num" and item.get("radix"):
+        b = proj.int_bits(slot.get("f"))
+        if b is not None:
+            slot["bits"] = b
+        slot["pr"] = proj.radix_printed(slot.get("out", ""), item["cfg"]["tho"], item["cfg"]["dec"])
     elif slot.get("k") == "num" and slot.get("nt") == "raw":
         try:
             x = float(slot["f"])
